@@ -522,6 +522,9 @@ func check(prop, tier string) int {
 			if err := os.WriteFile(v.ReplayPath, data, 0o644); err != nil {
 				trouble("write %s: %v", v.ReplayPath, err)
 			}
+			// the unminimised trace is kept: if the minimised one turns out not to be stable
+			// in a fresh process, the original is what gets reported
+			os.WriteFile(filepath.Join(scenPhase[v.Scenario].b.dir, fmt.Sprintf("orig-%d.json", ki)), data, 0o644)
 			mwg.Add(1)
 			go func(k string, v *FoundViolation) {
 				defer mwg.Done()
@@ -571,6 +574,46 @@ func check(prop, tier string) int {
 		rep, _, err := replayFresh(ph.b.bin, v.ReplayPath, ph.b.dir, fmt.Sprintf("%d", indexOf(keys, k)), ph.env)
 		if err != nil {
 			trouble("replay of %s failed to run: %v", v.ReplayPath, err)
+		}
+		if !rep && !ph.race {
+			// The minimiser runs thousands of candidates in one warm process; in the system
+			// simulation the order of goroutines inside one quiescence step is the Go
+			// scheduler's, so a candidate can (rarely) violate there and not in a fresh process.
+			// Fall back to the unminimised trace of the exploring run.
+			if orig, err2 := os.ReadFile(filepath.Join(ph.b.dir, fmt.Sprintf("orig-%d.json", indexOf(keys, k)))); err2 == nil {
+				os.WriteFile(v.ReplayPath, orig, 0o644)
+				rep, _, err = replayFresh(ph.b.bin, v.ReplayPath, ph.b.dir, fmt.Sprintf("%d-orig", indexOf(keys, k)), ph.env)
+				if err != nil {
+					trouble("replay of %s failed to run: %v", v.ReplayPath, err)
+				}
+				if rep {
+					fmt.Printf("NOTE property=%s fingerprint=%s: the minimised trace did not reproduce in a fresh process; the unminimised trace (%d choices) is reported instead\n", v.Property, v.Fingerprint, v.OrigLen)
+					v.Choices = v.OrigLen
+				}
+				// Still not: the run may depend on process-level state of Helios (package
+				// variables) left behind by the runs before it. Replay it after its predecessors.
+				ki := indexOf(keys, k)
+				for _, wk := range []uint64{1, 4, 16, 64} {
+					if rep {
+						break
+					}
+					var raw map[string]any
+					if json.Unmarshal(orig, &raw) != nil {
+						break
+					}
+					raw["warmup_runs"] = wk
+					wd, _ := json.Marshal(raw)
+					os.WriteFile(v.ReplayPath, wd, 0o644)
+					rep, _, err = replayFresh(ph.b.bin, v.ReplayPath, ph.b.dir, fmt.Sprintf("%d-warm%d", ki, wk), ph.env)
+					if err != nil {
+						trouble("replay of %s failed to run: %v", v.ReplayPath, err)
+					}
+					if rep {
+						fmt.Printf("NOTE property=%s fingerprint=%s: reproduces only after the %d preceding run(s) of the same process: Helios keeps state at process level (package variables) that survives between simulated runs; the replay file executes them first (warmup_runs)\n", v.Property, v.Fingerprint, wk)
+						v.Choices = v.OrigLen
+					}
+				}
+			}
 		}
 		if !rep && ph.race {
 			// race tier: the workload is seed-determined, the schedule is not; the detector's
@@ -887,6 +930,61 @@ func main() {
 		os.Stdout.Write(data)
 		if err != nil {
 			trouble("%v", err)
+		}
+	case "stability":
+		// vrun stability <replay file> [n]: (development aid) minimise a copy of the file, then
+		// replay original and minimised traces n times each in fresh processes
+		if len(os.Args) < 3 {
+			trouble("usage: stability <replay file> [n]")
+		}
+		n := 5
+		if len(os.Args) > 3 {
+			n, _ = strconv.Atoi(os.Args[3])
+		}
+		b := build("stability", false)
+		defer os.RemoveAll(b.dir)
+		data, err := os.ReadFile(os.Args[2])
+		if err != nil {
+			trouble("%v", err)
+		}
+		orig := filepath.Join(b.dir, "orig.json")
+		min := filepath.Join(b.dir, "min.json")
+		os.WriteFile(orig, data, 0o644)
+		os.WriteFile(min, data, 0o644)
+		if _, err := runWorker(b.bin, &Job{Mode: "minimise", ReplayFile: min, Out: filepath.Join(b.dir, "min-out.json"), WallS: 20}, 1); err != nil {
+			trouble("%v", err)
+		}
+		mo, _ := os.ReadFile(filepath.Join(b.dir, "min-out.json"))
+		fmt.Printf("minimise: %s\n", mo)
+		for _, f := range []string{orig, min} {
+			ok := 0
+			hashes := map[string]int{}
+			for i := 0; i < n; i++ {
+				rep, res, err := replayFresh(b.bin, f, b.dir, fmt.Sprintf("st-%d", i), nil)
+				if err != nil {
+					trouble("%v", err)
+				}
+				if rep {
+					ok++
+				}
+				hashes[fmt.Sprint(res["log_hash"])]++
+			}
+			fmt.Printf("%s: reproduced %d/%d in fresh processes, log hashes %v\n", filepath.Base(f), ok, n, hashes)
+		}
+		{
+			// the same minimised trace replayed repeatedly inside one (warming) process
+			out := filepath.Join(b.dir, "warm.json")
+			if _, err := runWorker(b.bin, &Job{Mode: "replay", ReplayFile: min, Out: out, Repeat: 8}, 1); err != nil {
+				trouble("%v", err)
+			}
+			var res map[string]any
+			rd, _ := os.ReadFile(out)
+			json.Unmarshal(rd, &res)
+			fmt.Printf("min.json in one process, up to 8 tries: reproduced=%v at try %v\n", res["reproduced"], res["tries"])
+		}
+		if len(os.Args) > 4 {
+			out, _ := os.ReadFile(min)
+			os.WriteFile(os.Args[4], out, 0o644)
 		}
 	case "selftest":
 		if len(os.Args) >= 3 && os.Args[2] == "determinism" {
